@@ -242,7 +242,49 @@ func checkC20(c *km.Ctx) {
 			if p == "" {
 				p = "-"
 			}
-			r.Add("R-C20-2", "cmd/keymasterd."+f, m, p, sprintf("%d publication(s) of %s in %s (reference)", want, m, f), sprintf("%d", have), have >= want)
+			okN := have >= want
+			found := sprintf("%d", have)
+			if !okN && have >= 1 {
+				// duplicated success blocks merged into one: fewer publication sites than in the reference is fine
+				// when every point at which the handler raises or creates the session is followed by one
+				if fn := c.P.Func("cmd/keymasterd", "(*RuntimeState)."+f); fn != nil {
+					var succ, pubs []ssa.CallInstruction
+					for _, ci := range km.CallsIn(fn) {
+						switch n := km.CalleeFull(ci.Common()); {
+						case n == RS+"updateAuthCookieAuthlevel" || n == RS+"setNewAuthCookie":
+							succ = append(succ, ci)
+						case n == notifierT+m:
+							pubs = append(pubs, ci)
+						}
+					}
+					all := len(succ) > 0
+					for _, sc := range succ {
+						one := false
+						for _, pb := range pubs {
+							// the publication goes with this success point: one dominates the other, or the
+							// publication sits in a conditional (only for browser requests) right before / after it
+							near := func(a, b ssa.Instruction) bool {
+								if km.InstrDominates(a, b) {
+									return true
+								}
+								d := a.Block().Idom()
+								return d != nil && d.Dominates(b.Block()) && km.ReachableBlocks(a.Block(), nil)[b.Block()] && len(d.Succs) == 2
+							}
+							if near(sc, pb) || near(pb, sc) {
+								one = true
+							}
+						}
+						if !one {
+							all = false
+						}
+					}
+					if all {
+						okN = true
+						found = sprintf("%d, one after each of the %d points where the session is raised", have, len(succ))
+					}
+				}
+			}
+			r.Add("R-C20-2", "cmd/keymasterd."+f, m, p, sprintf("%d publication(s) of %s in %s (reference)", want, m, f), found, okN)
 		}
 	}
 
